@@ -300,6 +300,88 @@ func c10(c *Ctx) {
 			}
 		}(hi, h)
 	}
+	// ---------- (b2) TGT renewal / re-login during a history: short-lived TGTs, direct oracles only ----------
+	for vi := 0; vi < 4; vi++ {
+		wg.Add(1)
+		go func(vi int) {
+			defer wg.Done()
+			renewable := vi%2 == 0
+			kk := kdc.New(realm)
+			kk.AddPrincipal([]string{"testuser1"}, "passwordvalue", 2)
+			spns := [][]string{{"HTTP", "a.test.gokrb5"}, {"HTTP", "b.test.gokrb5"}, {"HTTP", "c.test.gokrb5"}}
+			for _, s := range spns {
+				kk.AddPrincipal(s, "svcpw", 1)
+			}
+			kk.TicketLifetime = 4 * time.Second
+			kk.ServiceLifetime = 2 * time.Second
+			kk.RequirePreauth = vi%2 == 1 // re-login then goes through a refused pre-emptive timestamp
+			if renewable {
+				kk.RenewLifetime = 30 * time.Second
+			}
+			if err := kk.Serve(); err != nil {
+				return
+			}
+			defer kk.Close()
+			cfg := testConfig(realm, []string{kk.Addr}, []int32{18})
+			if renewable {
+				cfg.LibDefaults.RenewLifetime = 30 * time.Second
+			}
+			cl := client.NewWithPassword("testuser1", realm, "passwordvalue", cfg, client.DisablePAFXFAST(true))
+			if err := cl.Login(); err != nil {
+				return
+			}
+			type chk struct {
+				ok          bool
+				oracle, sig string
+				detail      string
+			}
+			var checks []chk
+			sleeps := []int{0, 3800, 0, 2300, 1500, 2600}
+			order := []int{0, 1, 0, 2, 1, 0}
+			if vi >= 2 {
+				sleeps = []int{0, 4600, 300, 2100, 3900, 200}
+				order = []int{0, 1, 2, 0, 2, 1}
+			}
+			for i := range sleeps {
+				time.Sleep(time.Duration(sleeps[i]) * time.Millisecond)
+				spn := joinSlash(spns[order[i]])
+				tkt, key, err := cl.GetServiceTicket(spn)
+				if err != nil {
+					checks = append(checks, chk{false, "GetServiceTicket keeps succeeding across TGT renewal and re-login against a conformant KDC", "get-fails-after-tgt-refresh", fmt.Sprintf("step %d renewable=%v: %v", i, renewable, err)})
+					break
+				}
+				id := kdc.TicketID(tkt)
+				found := false
+				for _, is := range kk.Issues {
+					if is.TicketHash == id && joinSlash(is.SName) == spn && string(is.Key.KeyValue) == string(key.KeyValue) {
+						found = true
+					}
+				}
+				checks = append(checks, chk{found, "the (ticket, session key) pair returned was issued together by the KDC for the requested SPN", "pair-not-issued", spn})
+			}
+			cl.Destroy()
+			nRenew, nAS := 0, 0
+			for _, rq := range kk.Requests {
+				if rq.Kind == "AS" {
+					nAS++
+				}
+				if rq.Kind == "TGS" && len(rq.TGS.ReqBody.SName.NameString) > 0 && rq.TGS.ReqBody.SName.NameString[0] == "krbtgt" && types.IsFlagSet(&rq.TGS.ReqBody.KDCOptions, 30) {
+					nRenew++
+				}
+			}
+			mu.Lock()
+			defer mu.Unlock()
+			for _, ch := range checks {
+				c.Check(ch.ok, ch.oracle, ch.sig, ch.detail, map[string]interface{}{"tgt-history": vi, "renewable": renewable})
+			}
+			if nRenew > 0 {
+				c.Count("tgt-history:with-tgt-renewal")
+			}
+			if nAS > 2 {
+				c.Count("tgt-history:with-relogin")
+			}
+		}(vi)
+	}
 	wg.Wait()
 
 	// ---------- (c) referral chains of length 0..8 ----------
